@@ -2,6 +2,7 @@
 C09 — the battle summary is a faithful function of the recorded events.
 -/
 import ReplayModel.Controller
+import ReplayModel.Extract
 namespace ReplayModel.C09
 open ReplayModel
 
@@ -263,5 +264,91 @@ theorem battle_result_last (es : List Event) (t r : Int) :
 example : (summarize [.death 1 2 3, .achievement 7 9, .death 4 5 6, .achievement 7 9]).deaths = [(1, 2, 3), (4, 5, 6)] ∧
     cnt2 (summarize [.death 1 2 3, .achievement 7 9, .death 4 5 6, .achievement 7 9]).achievements 7 9 = 2 := by
   decide +kernel
+
+/-! ### from the bytes of the stream (model: `ReplayModel/Extract.lean`) -/
+
+/-- a log entry that is a well-formed `receiveVehicleDeath` call -/
+def deathCall (e : LogEntry) : Option (Int × Int × Int) := (eventOfEntry e).bind deathOf
+
+theorem eventsOfWorld_no_death (w : World) : (eventsOfWorld w).filterMap deathOf = [] := by
+  unfold eventsOfWorld
+  cases w.playerId <;> cases w.map <;> rfl
+
+/-- **Deaths in the summary are the death calls of the stream, in stream order** — from the
+bytes: every `Avatar.receiveVehicleDeath` call the played stream decodes to (victim, killer,
+type as decoded by the version's own definitions) appears once, in call order, and nothing
+else does. -/
+theorem deaths_of_stream (jsonOk : Bytes → Bool) (defs : Defs) (masks : Masks) (dialect : Dialect) (strict : Bool) (stream : Bytes) :
+    (summaryOfStream jsonOk defs masks dialect strict stream).deaths =
+      (play jsonOk { defs := defs, masks := masks, dialect := dialect, reg := summaryRegistry } strict {} stream).world.log.filterMap deathCall := by
+  unfold summaryOfStream
+  simp only [deaths_ordered, List.filterMap_append, eventsOfWorld_no_death, List.append_nil, eventsOfLog,
+    List.filterMap_filterMap]
+  rfl
+
+/-- events produced by callbacks: they never touch the player / map / arena fields -/
+def isCallEvent : Event → Bool
+  | .death .. | .achievement .. | .battleEnd .. | .arena .. => true
+  | _ => false
+
+theorem eventOfCall_isCall (key : String) (args : List Val) (ev : Event) (h : eventOfCall key args = some ev) :
+    isCallEvent ev = true := by
+  unfold eventOfCall at h
+  split at h
+  · split at h
+    · cases h; rfl
+    · cases h
+  · split at h
+    · split at h
+      · cases h; rfl
+      · cases h
+    · split at h
+      · split at h
+        · cases h; rfl
+        · cases h
+      · split at h
+        · split at h
+          · cases h; rfl
+          · cases h
+        · cases h
+
+theorem eventOfEntry_isCall (e : LogEntry) (ev : Event) (h : eventOfEntry e = some ev) : isCallEvent ev = true := by
+  cases e with
+  | method key sub eid args kwargs => exact eventOfCall_isCall key _ ev h
+  | prop => cases h
+  | nested => cases h
+
+theorem calls_keep_ids (es : List Event) (h : ∀ e ∈ es, isCallEvent e = true) : ∀ s : Summary,
+    (es.foldl Summary.apply s).playerId = s.playerId ∧ (es.foldl Summary.apply s).map = s.map := by
+  induction es with
+  | nil => intro s; exact ⟨rfl, rfl⟩
+  | cons e es ih =>
+    intro s
+    obtain ⟨h1, h3⟩ := ih (fun x hx => h x (List.mem_cons_of_mem _ hx)) (s.apply e)
+    have he := h e (List.mem_cons_self ..)
+    simp only [List.foldl_cons, h1, h3]
+    cases e <;> simp_all [Summary.apply, isCallEvent]
+
+/-- the recording player's id and the map in the summary are those the player recorded from
+the base-player and map packets (last one wins, `C05.player_id_base`), the map without its
+`spaces/` prefix -/
+theorem player_of_stream (jsonOk : Bytes → Bool) (defs : Defs) (masks : Masks) (dialect : Dialect) (strict : Bool) (stream : Bytes) :
+    let w := (play jsonOk { defs := defs, masks := masks, dialect := dialect, reg := summaryRegistry } strict {} stream).world
+    (summaryOfStream jsonOk defs masks dialect strict stream).playerId = w.playerId ∧
+    (summaryOfStream jsonOk defs masks dialect strict stream).map = w.map.map stripSpaces := by
+  intro w
+  unfold summaryOfStream summarize
+  rw [List.foldl_append]
+  have hcalls : ∀ e ∈ eventsOfLog w.log, isCallEvent e = true := by
+    intro e he
+    unfold eventsOfLog at he
+    obtain ⟨x, _, hx⟩ := List.mem_filterMap.mp he
+    exact eventOfEntry_isCall x e hx
+  obtain ⟨h1, h3⟩ := calls_keep_ids _ hcalls {}
+  generalize (eventsOfLog w.log).foldl Summary.apply {} = s0 at h1 h3
+  show ((eventsOfWorld w).foldl Summary.apply s0).playerId = _ ∧ _
+  unfold eventsOfWorld
+  cases w.playerId <;> cases w.map <;>
+    simp_all [Summary.apply]
 
 end ReplayModel.C09
